@@ -44,3 +44,19 @@ Qed.
 
 (* reading only looks at the record: bytes after it are irrelevant (already in the statement via
    [post]); reading a record from a too-short string fails *)
+
+Lemma read_layout_app bo l1 : forall l2 d pos,
+  read_layout bo (l1 ++ l2) d pos =
+  (let! a := read_layout bo l1 d pos in let! b := read_layout bo l2 d (pos + lwidth l1) in Ok (a ++ b)).
+Proof.
+  induction l1 as [|f l1 IH]; intros l2 d pos; cbn [app read_layout lwidth].
+  - rewrite Z.add_0_r. cbn [bind]. destruct (read_layout bo l2 d pos); reflexivity.
+  - destruct f as [n|n|n]; cbn [fwidth].
+    + destruct (rd_s n bo d pos); cbn [bind]; try reflexivity. rewrite IH.
+      rewrite Z.add_assoc. destruct (read_layout bo l1 d (pos + Z.of_nat n)); cbn [bind]; try reflexivity.
+      destruct (read_layout bo l2 d (pos + Z.of_nat n + lwidth l1)); reflexivity.
+    + destruct (rd_u n bo d pos); cbn [bind]; try reflexivity. rewrite IH.
+      rewrite Z.add_assoc. destruct (read_layout bo l1 d (pos + Z.of_nat n)); cbn [bind]; try reflexivity.
+      destruct (read_layout bo l2 d (pos + Z.of_nat n + lwidth l1)); reflexivity.
+    + rewrite IH. rewrite Z.add_assoc. reflexivity.
+Qed.
